@@ -319,7 +319,12 @@ func stateBodyNumbered(kind int, s uint64, t time.Time, numbered bool) []byte {
 	case 3:
 		lines = []string{seqLine, "txnMaxQueried=0", "txnActiveList=", "txnReadyList=", "txnMax=0", timeLine}
 	}
-	return []byte(comment + "\n" + strings.Join(lines, "\n") + "\n")
+	// every third file ends without a final newline (its last line is as good as the others)
+	end := "\n"
+	if s%3 == 1 {
+		end = ""
+	}
+	return []byte(comment + "\n" + strings.Join(lines, "\n") + end)
 }
 
 // situation is the coarse class of a lookup used in violation keys. It is a
